@@ -360,19 +360,24 @@ def validation_failures(limit=5):
             n += 1
             if n % 7 and k == 3:
                 continue
-            begin = sc.array(dims=['slit'], values=[float(c[0]) for c in combo], unit='deg')
-            end = sc.array(dims=['slit'], values=[float(c[1]) for c in combo], unit='deg')
             want_reject = arcs_overlap(combo)
             if want_reject and not arcs_overlap(combo, strict=True):
                 continue        # slits that merely touch: the statement speaks of overlapping slits; either answer is accepted
-            try:
-                dc._check_edges(begin, end)
-                rejected = False
-            except ValueError:
-                rejected = True
-            if rejected != want_reject and len(fails) < limit:
-                fails.append({'id': f'slits{len(fails)}', 'slits_deg': [list(c) for c in combo], 'overlap_on_the_disk': want_reject, 'rejected': rejected,
-                              'across_top_dead_centre': any(c[1] > 360 or c[0] < 0 for c in combo)})
+            # the order in which the slits are listed is arbitrary: every order of the set, in deg and (one order) in rad
+            orders = list(itertools.permutations(combo))
+            for oi, order in enumerate(orders):
+                for unit in (('deg', 'rad') if oi == len(orders) - 1 else ('deg',)):
+                    f_ = 1.0 if unit == 'deg' else 3.141592653589793 / 180
+                    begin = sc.array(dims=['slit'], values=[float(c[0]) * f_ for c in order], unit=unit)
+                    end = sc.array(dims=['slit'], values=[float(c[1]) * f_ for c in order], unit=unit)
+                    try:
+                        dc._check_edges(begin, end)
+                        rejected = False
+                    except ValueError:
+                        rejected = True
+                    if rejected != want_reject and len(fails) < limit:
+                        fails.append({'id': f'slits{len(fails)}', 'slits_deg': [list(c) for c in order], 'unit': unit, 'overlap_on_the_disk': want_reject, 'rejected': rejected,
+                                      'across_top_dead_centre': any(c[1] > 360 or c[0] < 0 for c in order)})
     # malformed inputs
     for label, (b, e) in {'begin>end': ([10.0, 50.0], [5.0, 60.0]), 'sizes differ': ([10.0], [20.0, 30.0])}.items():
         try:
@@ -389,7 +394,7 @@ def slit_validation(chk):
     n, fails = validation_failures()
     known = [f for f in fails if f.get('across_top_dead_centre') and f.get('overlap_on_the_disk') and not f.get('rejected')]
     other = [f for f in fails if f not in known]
-    chk.bounded_check('slit-validation-grid', 'real _check_edges vs arcs-on-a-circle spec', f'{n} sets of 2..3 slits on a 35-degree grid over [-30, 400) deg, widths 10/40 deg',
+    chk.bounded_check('slit-validation-grid', 'real _check_edges vs arcs-on-a-circle spec', f'{n} sets of 2..3 slits on a 35-degree grid over [-30, 400) deg, widths 10/40 deg, every listing order, deg and rad',
                       n, other)
     if known:
         o = chk.decided('bounded/known/overlap-across-top-dead-centre-accepted', False, detail=str(known[0]), meta={'bounded': True, 'replay': known[0]})
